@@ -298,6 +298,7 @@ macro_rules! stream_obj {
                 use reactive_mutiny::prelude::*;
                 match name {
                     "send" => { let ok = self.chan.send(arg as u32).is_ok(); (ok as u64, format!("ok {}", ok)) }
+                    "reserve_send_or_cancel" => self.reserve_send_or_cancel(arg as u32),
                     "cancel_all" => { self.chan.cancel_all_streams(); (0, "done".into()) }
                     "cancel" => { self.chan.verif_streams_manager().cancel_stream(arg as u32); (0, "done".into()) }
                     "drive" => {
@@ -325,6 +326,25 @@ macro_rules! stream_obj {
 }
 stream_obj!(StreamUniAtomic, ChannelUniMoveAtomic);
 stream_obj!(StreamUniFullSync, ChannelUniMoveFullSync);
+impl<const N: usize, const MS: usize> StreamUniAtomic<N, MS> {
+    fn reserve_send_or_cancel(&self, v: u32) -> (u64, String) {
+        use reactive_mutiny::prelude::*;
+        match self.chan.reserve_slot() {
+            None => (0, "code 0".into()),
+            Some(slot) => {
+                *slot = v;
+                let p = slot as *mut u32;
+                let code = if self.chan.try_send_reserved(unsafe { &mut *p }) { 1 }
+                           else if self.chan.try_cancel_slot_reserve(unsafe { &mut *p }) { 2 }
+                           else if self.chan.try_send_reserved(unsafe { &mut *p }) { 1 } else { 3 };
+                (code, format!("code {}", code))
+            }
+        }
+    }
+}
+impl<const N: usize, const MS: usize> StreamUniFullSync<N, MS> {
+    fn reserve_send_or_cancel(&self, _v: u32) -> (u64, String) { panic!("the movable full-sync channel has no reservation API") }
+}
 
 fn make_stream(kind: &str, n: usize) -> Option<Arc<dyn Obj>> {
     // kind = Stream<Chan>{Parked|Fresh}[:MS:NS]
